@@ -854,7 +854,19 @@ class TorConfig:
             # v will be txtorcon.DEFAULT_VALUE already from
             # parse_keywords if it was unspecified
             real_name = self._find_real_name(k)
-            if real_name in self.parsers:
+            if real_name.lower() in [x.lower() for x in self.list_parsers]:
+                # list-valued options stay tracked lists, whether
+                # Tor told us zero, one or many values
+                if v == DEFAULT_VALUE:
+                    v = []
+                elif not isinstance(v, list):
+                    v = [v]
+                if v and isinstance(self.parsers.get(real_name), CommaList):
+                    v = self.parsers[real_name].parse(','.join(v))
+                v = _ListWrapper(
+                    [str(x).strip() for x in v],
+                    functools.partial(self.mark_unsaved, real_name))
+            elif real_name in self.parsers:
                 v = self.parsers[real_name].parse(v)
             self.config[real_name] = v
 
